@@ -30,3 +30,36 @@ package updown
 //@   loop 5:
 //@     invariant !failed(w)
 //@   ensures [c19] implies(result == nil, !failed(w))
+
+//@ spec posOf(k int) int uninterpreted
+
+//@ # C10/C12/C19: updown list writer. Rows in idx order for every arrival order; ambiguity ranges rendered "a" when
+//@ # start == end and "a-b" otherwise (asserted at each append); a failed Write is reported and done is withheld.
+//@ func writeOutput
+//@   modifies w, cErr, cWriteDone
+//@   requires forall(k, 0, len(recv(cudLs)), 0 <= posOf(k) && posOf(k) < len(recv(cudLs)) && recv(cudLs)[posOf(k)].idx == k)
+//@   requires forall(a, 0, len(recv(cudLs)), 0 <= recv(cudLs)[a].idx && recv(cudLs)[a].idx < len(recv(cudLs)) && posOf(recv(cudLs)[a].idx) == a)
+//@   requires forall(a, 0, len(recv(cudLs)), len(recv(cudLs)[a].ambs) % 2 == 0)
+//@   loop 1:
+//@     invariant 0 <= counter && counter <= len(recv(cudLs)) && !in(outputMap, counter)
+//@     invariant forallint(k, in(outputMap, k) == (counter <= k && k < len(recv(cudLs)) && posOf(k) < range_i))
+//@     invariant forall(k, counter, len(recv(cudLs)), implies(posOf(k) < range_i, outputMap[k] == recv(cudLs)[posOf(k)]))
+//@     invariant forall(k, 0, counter, posOf(k) < range_i)
+//@     invariant !failed(w) && len(sent(cErr)) == 0 && len(sent(cWriteDone)) == 0
+//@     invariant len(written(w)) == 1 + counter
+//@   loop 2:
+//@     invariant 0 <= counter && counter <= len(recv(cudLs))
+//@     invariant forallint(k, in(outputMap, k) == (counter <= k && k < len(recv(cudLs)) && posOf(k) < range_i + 1))
+//@     invariant forall(k, counter, len(recv(cudLs)), implies(posOf(k) < range_i + 1, outputMap[k] == recv(cudLs)[posOf(k)]))
+//@     invariant forall(k, 0, counter, posOf(k) < range_i + 1)
+//@     invariant !failed(w) && len(sent(cErr)) == 0 && len(sent(cWriteDone)) == 0
+//@     invariant len(written(w)) == 1 + counter
+//@     decreases len(recv(cudLs)) - counter
+//@   loop 3:
+//@     invariant 0 <= i && i % 2 == 0 && len(ambstrings) * 2 == i && i <= len(udLine.ambs) && len(udLine.ambs) % 2 == 0
+//@     invariant forall(m, 0, len(ambstrings), ambstrings[m] == ite(udLine.ambs[2*m] == udLine.ambs[2*m+1], itoa(udLine.ambs[2*m]), itoa(udLine.ambs[2*m]) + "-" + itoa(udLine.ambs[2*m+1])))
+//@     invariant 0 <= counter && counter < len(recv(cudLs)) && udLine == recv(cudLs)[posOf(counter)]
+//@   before call:Write#2: assert [order] udLine == recv(cudLs)[posOf(counter)] && len(ambstrings) * 2 == len(udLine.ambs)
+//@   after call:Write#2: assert [row] written(w)[len(written(w))-1] == udLine.id + "," + join(udLine.snps, "|") + "," + join(ambstrings, "|") + "," + itoa(udLine.snpCount) + "," + itoa(udLine.ambCount) + "\n"
+//@   ensures [c19.reported] implies(failed(w), len(sent(cErr)) >= 1 && len(sent(cWriteDone)) == 0)
+//@   ensures [c12.done] implies(!failed(w), len(sent(cErr)) == 0 && len(sent(cWriteDone)) == 1 && len(written(w)) == 1 + len(recv(cudLs)))
